@@ -171,6 +171,28 @@ META6 = {
  "C19": ("resolution conversion walks down step by step and raises only when it runs out of levels (a refused processes -> signals request collapses the storage to 'off' first)", "set_resolution('signals') on a response stored by processes, object inspected after the refusal"),
  "C20": ("fewer indices than processes: block ends computed as min(rank+1, stop) instead of min(rank+1, remainder)", "range shorter than the number of processes with a non-zero start"),
 }
+META7 = {
+ "C01": ("Secular._secularize_data: five-index data multiplied by the sum of the two Kronecker patterns, which overlap on [a,a,a,a] (depopulation elements doubled)", "secularize(legacy=False) on a time-dependent tensor with five-index data (TD Foerster, TD combined Redfield-Foerster)"),
+ "C02": ("pure-dephasing factors kept between propagate() calls, keyed on (id(PDeph), dtype, dt) without the rates", "dephasing rates of the PureDephasing object changed between two runs of the same propagator"),
+ "C03": ("add_Molecule re-creates an existing coupling matrix from its upper-left block (a full matrix given before the molecules is cropped to zeros)", "Aggregate(); set_resonance_coupling_matrix(J); add_Molecule(...) for each molecule; build()"),
+ "C04": ("SelfAdjointOperator.get_diagonalization_matrix returns the identity for an operator that is already diagonal", "context operator that is diagonal with a non-ascending diagonal"),
+ "C05": ("Molecule.get_diabatic_coupling caches the converted value per element, without the active units in the key", "the same element of the same molecule read twice under different units"),
+ "C06": ("TDRedfieldRateMatrix transforms the caller's sbi.KK in place (asarray instead of copy)", "time-dependent rates computed first, other Redfield quantities from the same system-bath interaction object afterwards"),
+ "C07": ("operator-form TD propagation no longer flags its result as rotating-frame data", "TD Redfield tensor in operator form, Hamiltonian with RWA, frames compared (is_in_rwa / convert_from_RWA)"),
+ "C08": ("multi-time apply() steps through the grid with a stride int(step ratio) (truncated, not rounded)", "apply() with a list/array/axis of times whose step is an inexact multiple of the grid step (0.3/0.1)"),
+ "C09": ("number of Matsubara terms kept on the object instead of per component", "an OverdampedBrownian component with matsubara set followed by one without, composite rebuilt from its parameters"),
+ "C10": ("Molecule._overlap_other compares sums of the other modes' quantum numbers instead of each of them", "a single molecule with three or more modes (Molecule.get_Hamiltonian)"),
+ "C11": ("loop over exciton transitions ends at Nb[1] when the aggregate was built with mult > 1 (highest one-exciton state skipped)", "aggregate built with mult=2"),
+ "C12": ("total signal buffered on first read; devide_by() rescales the stored parts in place without resetting the buffer", "total read, devide_by(), total read again (normalisation to the maximum)"),
+ "C13": ("windowed transform on upper-half axes: the Hermitian extension uses the un-windowed values", "get_Fourier_transform(window=...) on an upper-half axis"),
+ "C14": ("reorganisation energies subtracted also when a relaxation Hamiltonian is supplied", "strong-coupling thermal excited state with relaxation_hamiltonian=..., sites with different reorganisation energies"),
+ "C15": ("in-place accumulation on the caller's initial state in the array-field route with a time-dependent tensor", "propagator with Efield (array) and Trdip, time-dependent tensor in tensor form, state object used again"),
+ "C16": ("every bath gets the correlation time of the last bath (stale loop variable)", "two or more baths with different correlation times"),
+ "C17": ("single-step matrix of propagate() memoised on the identity of the rate-matrix object", "propagate, edit the rates in place (set_rate / element assignment), propagate again on the same propagator"),
+ "C18": ("loaddir caches the objects it has read and hands the same objects out again", "savedir, loaddir, in-place change of a loaded object, loaddir again"),
+ "C19": ("total at pathway resolution summed over get_all_data(), whose string keys collide for tags with the same string form", "two pathways of one type tagged 1 and '1', total read at pathway resolution"),
+ "C20": ("all-reduce of the Lambda operators removed from the distributed Redfield tensor construction", "as_operators=True on more than one process"),
+}
 pid = sys.argv[1]
 src = sys.argv[2] if len(sys.argv) > 2 else "/tmp/seed/" + pid
 dname = sys.argv[3] if len(sys.argv) > 3 else pid
@@ -185,6 +207,8 @@ elif dname.endswith("-e"):
     META = META5
 elif dname.endswith("-f"):
     META = META6
+elif dname.endswith("-g"):
+    META = META7
 os.makedirs(dst, exist_ok=True)
 for f in ("patch.diff", "demo.py"):
     shutil.copy(os.path.join(src, f), os.path.join(dst, f))
@@ -197,7 +221,7 @@ for tier in ("quick", "thorough"):
     res[tier] = {"demo_exit_unmodified": int(m.group(1)), "demo_exit_with_change": int(m.group(2)), "check_exit": int(m.group(3)), "first_clause": m.group(4).strip()[:160]}
     print(out[:200])
 head = subprocess.run(["git", "-C", "/repo", "rev-parse", "--short", "HEAD"], capture_output=True, text=True).stdout.strip()
-meta = {"property": pid, "origin": "fresh sub-agent given only the property text and a scratch worktree" + (" (second round: asked to aim at a different clause than the first seed)" if dname.endswith("-b") else (" (third round: two earlier targets excluded, list of hard-to-notice kinds of change given)" if dname.endswith("-c") else (" (fourth round: three earlier targets excluded)" if dname.endswith("-d") else (" (fifth round: four earlier targets excluded)" if dname.endswith("-e") else (" (sixth round: five earlier targets excluded, a clause to aim at named)" if dname.endswith("-f") else ""))))),
+meta = {"property": pid, "origin": "fresh sub-agent given only the property text and a scratch worktree" + (" (second round: asked to aim at a different clause than the first seed)" if dname.endswith("-b") else (" (third round: two earlier targets excluded, list of hard-to-notice kinds of change given)" if dname.endswith("-c") else (" (fourth round: three earlier targets excluded)" if dname.endswith("-d") else (" (fifth round: four earlier targets excluded)" if dname.endswith("-e") else (" (sixth round: five earlier targets excluded, a clause to aim at named)" if dname.endswith("-f") else (" (seventh round: six earlier targets excluded, free choice of clause)" if dname.endswith("-g") else "")))))),
         "what": META[pid][0], "needs_to_manifest": META[pid][1],
         "confirmed": {"repo_head": head, "patch_applies": True,
                       "pinned_suite_with_change": "148/148 stable tests pass (pinned suite run on the tree with the change applied: ./baseline.sh on /repo, or ./baseline_scratch.sh on a scratch copy for round 5)",
